@@ -21,8 +21,10 @@ def build(tier, seed):
                                 'per level': 'parity matching or not' + (', read faults' if 'FAULTS' in ex else ''), 'info word, clock': 'symbolic', 'hash migration pending': 'symbolic' if 'REHASH' in ex else False}))
     J.append(vf.Job('C15/scrub_step/negctl', ['C15_process.c', 'stubs/log_stubs.c'], units=UP, entry='c15_scrub_step', defines=['ND=2', 'LEVEL=1', 'NEGCTL'], cflags=vf.PATHMAX64, unwind=18, flags=['--max-field-sensitivity-array-size', '160'],
                     kind='negctl', native=False, decisive=r'VF:|unwinding', sample={'wrong_oracle': 'a silent error leaves the exit status at 0'}))
-    return dict(jobs=J, bounds={'stripes': nb, 'olderthan_days': '<= 3650', 'clock': '32-bit seconds, after 1982'},
-        assumptions=['state_scrub_process replaced by a recorder that runs the real block_is_enabled over all positions (the selection pass of the real loop)', 'qsort = insertion sort through the real comparison callback',
+    return dict(jobs=J, bounds={'stripes': nb, 'olderthan_days': '<= 3650', 'clock': '32-bit seconds, after 1982', 'scrub step': 'one stripe, 2-3 disks (4 thorough), 1-2 parity levels (up to 6 thorough)'},
+        assumptions=['plan jobs: state_scrub_process replaced by a recorder that runs the real block_is_enabled over all positions (the selection pass of the real loop)',
+                     'scrub step: abstract data plane - block size 8 (one 64-bit token per block); memhash = injective uninterpreted function of (kind, token) with one table slot per call site (stubs/uf_slots.h); raid_gen yields per level the token the parity file returned or a different one (parity matches / differs: solver-chosen)',
+                     'scrub step: io_* = contract stubs with single-thread semantics calling the real scrub_data_reader / scrub_parity_reader (io.c is C13); handle_* / parity_* / fs_par2block_find / fs_par2file_find / state_usage_* / state_progress are stubs over the ghost array; hole positions and reader arrival order enumerated', 'qsort = insertion sort through the real comparison callback',
                      'parity_allocated_size, time(), malloc stubbed; no parity levels opened (level 0)'],
         trusted=['cbmc 6.11.0', 'kissat', 'stubs'],
-        outside=['the per-stripe mark / clear / refresh rules of state_scrub_process (covered with C04/C08 harnesses when built)', 'force_scrub_at / force_scrub_even test options', 'more stripes than the bound; "eventually every stripe" is the stated induction over the one-step progress lemma'])
+        outside=['scrub step: more than one stripe per run (autosave, error limit), the text of tags and messages', 'force_scrub_at / force_scrub_even test options', 'more stripes than the bound; "eventually every stripe" is the stated induction over the one-step progress lemma'])
